@@ -16,6 +16,11 @@ _bin = None
 def sync_crate(src, dst):
     os.makedirs(dst, exist_ok=True)
     subprocess.run(["rsync", "-a", "--delete", "--exclude", "Cargo.lock", "--exclude", "target", src + "/", dst + "/"], check=True)
+    if REPO != "/repo":
+        mp = os.path.join(dst, "Cargo.toml")
+        t = open(mp).read()
+        with open(mp, "w") as f:
+            f.write(common.repo_paths(t))
     lock = os.path.join(dst, "Cargo.lock")
     if not os.path.exists(lock):
         shutil.copy(os.path.join(REPO, "Cargo.lock"), lock)
